@@ -791,6 +791,14 @@ def r9_clone(F, R):
     R.floor(3)
 
 
+def r10(F, R):
+    """Every scenario runs and the run ends: the scheduler's bracket bookkeeping is keyed by `Source` *identity* — with value equality two
+    equal-looking features (the same file given twice, two path-less features with the same text) share one entry, the entry is removed when
+    the first finishes, and the second's completion panics inside `execute` (`no Feature: ..`), abandoning everything queued (= C03.R6)."""
+    from . import c03
+    c03.r6(F, R)
+
+
 RULES = [
     ("R1", r1, None),
     ("R2", r2, None),
@@ -800,4 +808,4 @@ RULES = [
     ("R6", r6, None),
     ("R7", r7, None),
     ("R8", r8, None),
- ("R9", r9_clone, None)]
+ ("R9", r9_clone, None), ("R10", r10, None)]
